@@ -1,7 +1,8 @@
 import RsMatterVerif.Model.Pase
 import Driver.Util
-/-! Driver for C02: replays the harness' scripts (window operations, virtual time, PASE initiators
-played message by message against the real responder) on `Model/Pase` and evaluates the
+/-! Driver for C02: replays the harness' scripts (window operations - basic and enhanced -, virtual
+time, PASE initiators played message by message against the real responder, duplicated / re-sent
+datagrams, a session table filled by other sessions) on `Model/Pase` and evaluates the
 specification on the implementation's observations: a PASE session appears only at a Pake3 that
 carries the right proof for the right transcript while the window is open; failures are counted;
 the window is revoked at the threshold; advertised ⇔ window present. -/
@@ -18,6 +19,7 @@ def kvOf (ws : List String) : KV :=
 
 def KV.get (m : KV) (k : String) : Option String := (m.find? (·.1 = k)).map (·.2)
 def KV.num (m : KV) (k : String) : Nat := ((m.get k).bind String.toNat?).getD 0
+def KV.optNum (m : KV) (k : String) : Option Nat := (m.get k).bind String.toNat?
 
 /-- what initiator `k` knows (symbolically) -/
 structure Ini where
@@ -29,6 +31,10 @@ structure Ini where
   pB : Option Nat := none
   /-- the exchange is still usable from the initiator's side -/
   live : Bool := true
+  /-- message counter of its next datagram -/
+  nextCtr : Nat := 0
+  /-- what it has sent: handshake message index (0 PBKDFParamRequest, 1 Pake1, 2 Pake3) ↦ (counter, message) -/
+  sent : List (Nat × Nat × Op) := []
 
 def Ini.conf (i : Ini) : Option Conf :=
   match i.ctx, i.pB with
@@ -37,7 +43,7 @@ def Ini.conf (i : Ini) : Option Conf :=
 
 /-- the specification's own book-keeping (written from the property text, independent of `step`) -/
 structure Spec where
-  /-- window: (passcode, expiry, failures) -/
+  /-- window: (passcode its verifier was made from, expiry, failures) -/
   win : Option (Nat × Nat × Nat) := none
   sessions : Nat := 0
   /-- the window expired and the device was not yet seen without it (allowed until the next poll) -/
@@ -48,60 +54,87 @@ structure St where
   devPw : Nat := 0
   /-- a handshake message is mutated in flight: the case is judged by the oracle only -/
   tamper : Bool := false
-  /-- number of windows opened so far: every window draws a fresh salt, so its verifier (the
+  /-- number of windows opened so far: every window has its own salt, so its verifier (the
   model's passcode class) is (passcode, window instance) -/
   opens : Nat := 0
   t0 : Option Nat := none
   inis : List Ini := []
-  /-- time (ms, case-relative) at which the responder task of exchange `x` last heard from its peer -/
-  last : List (Nat × Nat) := []
   spec : Spec := {}
 
-/-- the responder's own receive timeout lies between these bounds (MRP ladders + 30 s processing
-allowance); scripts never leave a live handshake idle for a time in between -/
-def aliveBelowMs : Nat := 30000
-def deadAboveMs : Nat := 45000
+/-- slack for the virtual milliseconds the responder's answer and its acknowledgement are under way -/
+def slackMs : Nat := 200
+/-- slack for the few virtual milliseconds the initiator's next message is under way -/
+def aliveSlackMs : Nat := 50
+
+def tabOf (s : Pase.St) : String :=
+  let c (p : Slot → Bool) : Nat := (s.table.filter p).length
+  let f := c (fun sl => sl == .filler false)
+  let fp := c (fun sl => sl == .filler true)
+  let u := c (fun sl => match sl with | .unsec x => (findTask s x).isNone | _ => false)
+  let up := c (fun sl => match sl with | .unsec x => (findTask s x).isSome | _ => false)
+  let r := c (fun sl => match sl with | .reserved _ => true | _ => false)
+  let p := c (fun sl => match sl with | .pase _ => true | _ => false)
+  s!"tab=F:{f},Fp:{fp},U:{u},Up:{up},R:{r},P:{p}"
+
+def paseCount (s : Pase.St) : Nat :=
+  (s.table.filter (fun sl => match sl with | .pase _ => true | _ => false)).length
 
 def obsOf (s : Pase.St) : String :=
   let w := if s.window.isSome then "1" else "0"
   let f := match s.window with | some x => toString x.failures | none => "-"
   let mk := if s.marker.isSome then "1" else "0"
   let adv := if advertised s then "1" else "0"
-  s!"w={w} f={f} m={mk} s={s.sessions.length} adv={adv}"
+  let (enh, disc) := match advertisedAs s with
+    | some (d, true) => ("1", toString d)
+    | some (_, false) => ("0", "-")
+    | none => ("-", "-")
+  s!"w={w} f={f} m={mk} s={paseCount s} adv={adv} {tabOf s} enh={enh} disc={disc}"
 
 def replyOf : Out → String
   | .none => "silent"
   | .ok => "ok"
+  | .okN n => s!"ok:{n}"
   | .errBusy => "err:Busy"
   | .errInvalidCommand => "err:InvalidCommand"
+  | .errConstraint => "err:ConstraintError"
+  | .errPakeParam => "err:Failure cs=3"
+  | .errClusterBusy => "err:Failure cs=2"
   | .pbkdfResp _ => "pbkdfresp"
   | .pake2 _ => "pake2"
   | .statusSuccess => "status:0"
   | .statusInvalidParameter => "status:2"
   | .statusBusy => "status:4"
-  | .statusSessionNotFound => "status:3"
+  | .statusSessionNotFound => "status:5"
+  | .transportBusy => "status:4"
+  | .ackOnly => "ack"
   | .dropped => "silent"
 
-def touch (st : St) (x now : Nat) : St := { st with last := (x, now) :: st.last.filter (·.1 ≠ x) }
-
 /-- let responder tasks whose peer stayed silent beyond the receive timeout die; `none` = a task is
-inside the indeterminate band -/
-def reap (st : St) (now : Nat) : Option St :=
-  st.m.tasks.foldl (fun acc t =>
+inside the band in which its timer may or may not have fired: it is armed (for `rxTimeoutMs`) when
+the responder's answer has been acknowledged, at the earliest with the answer itself and at the
+latest one retransmission ladder (`sendLadderMs`) later -/
+def reap (m : Pase.St) (now : Nat) : Option Pase.St :=
+  m.tasks.foldl (fun acc t =>
     match acc with
     | none => none
-    | some st =>
-      match st.last.find? (·.1 = t.exch) with
-      | none => some st
-      | some (_, l) =>
-        if now ≥ l + deadAboveMs then some { st with m := (step st.m (.dead t.exch)).1 }
-        else if now > l + aliveBelowMs then none
-        else some st) (some st)
+    | some m =>
+      let rx := rxTimeoutMs t.mrp localActiveMs
+      if now ≥ t.since + rx + sendLadderMs t.mrp + slackMs then
+        some (Pase.step { m with now := max m.now (t.since + rx) } (.rxTimeout t.exch)).1
+      else if now + aliveSlackMs > t.since + rx then none
+      else some m) (some m)
 
 def specExpire (sp : Spec) (now : Nat) : Spec :=
   match sp.win with
   | some (_, e, _) => if now > e then { sp with win := none, lingering := true } else sp
   | none => sp
+
+def victimOf (ev : String) : Option VClass :=
+  match (ev.splitOn ",").head? with
+  | some "F" => some .filler
+  | some "U" => some .unsec
+  | some "P" => some .pase
+  | _ => none
 
 def step (st : St) (line : String) : St × String :=
   let (op, out) := splitArrow line
@@ -117,9 +150,10 @@ def step (st : St) (line : String) : St × String :=
     let t := ((lw.head?.map (fun w => (w.drop 2).toString)).bind String.toNat?).getD 0
     let reply := " ".intercalate (lw.drop 1)
     if reply = "skip" then (st, "ok") else
+    let o' := kvOf (words obs)
     if st.tamper then
       -- single-bit mutation of a handshake message in flight: no PASE session may result
-      let s := (kvOf (words obs)).num "s"
+      let s := o'.num "s"
       if obs ≠ "" && s > 0 then (st, "ORA session although a handshake message was mutated in flight")
       else (st, "ok")
     else
@@ -127,34 +161,53 @@ def step (st : St) (line : String) : St × String :=
     let now := t - t0
     let st := { st with t0 := some t0 }
     -- virtual time is an input: bring the model to `now`, reaping dead handshakes first
-    match reap st now with
+    match reap st.m now with
     | none => (st, "BAD a live handshake idles inside the receive-timeout band (generator must avoid this)")
-    | some st =>
-    let st := { st with m := (Pase.step st.m (.tick (now - st.m.now))).1 }
+    | some m0 =>
+    let st := { st with m := (Pase.step m0 (.tick (now - m0.now))).1 }
     let sp := st.spec
     let k := m.num "i"
     let ini := (st.inis.find? (·.k = k)).getD { k := k }
     let setIni (st : St) (i : Ini) : St := { st with inis := i :: st.inis.filter (·.k ≠ i.k) }
-    -- the model operation(s)
-    let (mop, st) : Option Op × St :=
+    let victim := victimOf ((o'.get "ev").getD "-")
+    -- the model event(s)
+    let (mev, st) : Option Ev × St :=
       match head with
-      | "open" => (some (.openWin (st.devPw * 1000 + st.opens + 1) (m.num "t")), st)
-      | "revoke" => (some .revoke, st)
-      | "tick" => (some (.tick (m.num "ms")), st)
-      | "poll" => (some .poll, st)
+      | "open" => (some (.op (.openWin (st.devPw * 1000 + st.opens + 1) (m.num "t"))), st)
+      | "openenh" =>
+        (some (.op (.openEnh (m.num "pw" * 1000 + st.opens + 1) (m.num "t") (m.num "sl") (m.num "it") (m.num "disc"))), st)
+      | "cmdopen" =>
+        (some (.op (.cmdOpenEnh (m.num "pw" * 1000 + st.opens + 1) (m.num "t") (m.num "sl") (m.num "it") (m.num "disc")
+          ((m.optNum "vl").getD 97))), st)
+      | "cmdbasic" => (some (.op (.cmdOpenBasic (st.devPw * 1000 + st.opens + 1) (m.num "t"))), st)
+      | "revoke" => (some (.op .revoke), st)
+      | "tick" => (some (.op (.tick (m.num "ms"))), st)
+      | "poll" => (some (.op .poll), st)
+      | "fill" => (some (.op (.fill (m.num "n") (m.num "pin" == 1))), st)
+      | "unfill" => (some (.op .unfill), st)
       | "pbkdf" =>
         let r := match m.get "req" with
           | some "malformed" => Req.malformed
           | some "pid" => Req.passcodeIdNonZero
-          | _ => Req.good
-        (some (.pbkdf k r), setIni st { k := k })
+          | _ =>
+            if (m.get "sai").isSome || (m.get "sii").isSome || (m.get "sat").isSome
+            then Req.params (m.optNum "sai") (m.optNum "sii") (m.optNum "sat") else Req.good
+        let o := Op.pbkdf k r victim
+        (some (.msg 0 o), setIni st { k := k, nextCtr := 1, sent := [(0, 0, o)] })
       | "pake1" =>
         let p := match m.get "pt" with
           | some "zero" => Pt.identity
-          | some "offcurve" => Pt.offCurve
-          | some "short" => Pt.malformed
+          | some "offcurve" | some "comp65" | some "hybrid" | some "xgep" | some "pfield" => Pt.offCurve
+          | some "short" | some "inf1" | some "comp" | some "long" => Pt.malformed
+          -- valid points that are not the prover's own share
+          | some "gen" => Pt.valid (k + 1000)
+          | some "m" => Pt.valid (k + 2000)
+          | some "n" => Pt.valid (k + 3000)
+          | some "neg" => Pt.valid (k + 4000)
           | _ => Pt.valid k
-        (some (.pake1 k p), setIni st { ini with pw := m.num "pw" })
+        let o := Op.pake1 k p
+        (some (.msg ini.nextCtr o),
+          setIni st { ini with pw := m.num "pw", nextCtr := ini.nextCtr + 1, sent := (1, ini.nextCtr, o) :: ini.sent })
       | "pake3" =>
         let good := ini.conf
         let c : Option CA := match m.get "ca" with
@@ -169,51 +222,69 @@ def step (st : St) (line : String) : St × String :=
               | some cj => some (.mac cj)
               | none => some (.junk 2)
             | _ => some (.junk 3)
-        (c.map (.pake3 k ·), st)
-      | "abort" => (some (.other k), st)
+        match c with
+        | some c =>
+          let o := Op.pake3 k c
+          (some (.msg ini.nextCtr o), setIni st { ini with nextCtr := ini.nextCtr + 1, sent := (2, ini.nextCtr, o) :: ini.sent })
+        | none => (none, st)
+      | "abort" => (some (.msg ini.nextCtr (.other k)), setIni st { ini with nextCtr := ini.nextCtr + 1 })
+      | "resend" =>
+        match ini.sent.find? (·.1 = m.num "m") with
+        | some (_, c, o) => (some (.msg c o), st)
+        | none => (none, st)
       | _ => (none, st)
-    match mop with
+    if head = "rxto" then
+      let want := s!"rxto={rxTimeoutMs { active := m.num "pa", idle := m.num "pi", thresh := m.num "pt" } (m.num "la")}"
+      if reply = want then (st, "ok") else (st, s!"DIS {want}")
+    else
+    match mev with
     | none => (st, "BAD op")
-    | some mop =>
-      let (m', o) := Pase.step st.m mop
+    | some mev =>
+      let (m1, o) := Pase.stepEv st.m mev
+      -- the network delivered the datagram twice
+      let m1 := if m.get "dup" = some "1" then (Pase.stepEv m1 mev).1 else m1
       -- handshakes whose peer stays silent throughout a long `tick` die inside it
       let reaped : Option Pase.St :=
-        if head = "tick" then (reap { st with m := m' } (now + m.num "ms")).map (·.m) else some m'
+        if head = "tick" then reap m1 (now + m.num "ms") else some m1
       match reaped with
       | none => (st, "BAD a live handshake idles inside the receive-timeout band (generator must avoid this)")
       | some m' =>
       -- what the initiator learns from the answer
       let st := match o with
-        | .pbkdfResp ctx => setIni st { (st.inis.find? (·.k = k)).getD { k := k } with ctx := some ctx, salt := st.opens }
-        | .ok => if head = "open" then { st with opens := st.opens + 1 } else st
-        | .pake2 pB => setIni st { (st.inis.find? (·.k = k)).getD { k := k } with pB := some pB }
+        | .pbkdfResp ctx => setIni st { (st.inis.find? (fun (i : Ini) => i.k = k)).getD { k := k } with ctx := some ctx, salt := st.opens }
+        | .ok => if head = "open" || head = "openenh" || head = "cmdopen" || head = "cmdbasic" then { st with opens := st.opens + 1 } else st
+        | .pake2 pB => setIni st { (st.inis.find? (fun (i : Ini) => i.k = k)).getD { k := k } with pB := some pB }
         | _ => st
-      let st := if head = "pbkdf" || head = "pake1" || head = "pake3" || head = "abort" then touch st k now else st
       -- the op itself takes (virtual) time: the observation is made after it
       let st := { st with m := m' }
       -- ---------------- specification on the implementation's observation ----------------
-      let o' := kvOf (words obs)
       let implW := o'.get "w" = some "1"
       let implS := o'.num "s"
       let implAdv := o'.get "adv" = some "1"
       let implF := (o'.get "f").bind String.toNat?
+      let evicted := ((o'.get "ev").getD "-").splitOn ","
       let sp := specExpire sp now
       -- expected-by-spec effects of the op on the window
       let sp := match head with
-        | "open" => if reply = "ok" then { sp with win := some (st.devPw, now + m.num "t" * 1000, 0) } else sp
+        | "open" | "cmdbasic" =>
+          if reply = "ok" then { sp with win := some (st.devPw, now + m.num "t" * 1000, 0), lingering := false } else sp
+        | "openenh" | "cmdopen" =>
+          if reply = "ok" then { sp with win := some (m.num "pw", now + m.num "t" * 1000, 0), lingering := false } else sp
         | "revoke" => { sp with win := none }
         | _ => sp
-      -- (1) a session appears only at a Pake3 with the right passcode, an unmodified / unreplayed
-      --     confirmation, while the window is open (present and unexpired)
+      -- (1) a session appears only at a Pake3 with the passcode of the open window's verifier, an unmodified /
+      --     unreplayed confirmation, not at a re-sent datagram, while the window is open (present and unexpired)
       let c1 : Option String :=
         if implS > sp.sessions then
-          if head ≠ "pake3" then some s!"a PASE session appeared at a `{head}` step"
+          if head = "resend" then some "a re-sent (replayed) handshake datagram yielded a PASE session"
+          else if head ≠ "pake3" then some s!"a PASE session appeared at a `{head}` step"
           else if implS > sp.sessions + 1 then some "more than one session appeared"
           else if (m.get "ca").getD "good" ≠ "good" then some "session although the confirmation was mutated / replayed"
-          else if ini.pw ≠ st.devPw then some "session although the passcode was wrong"
-          else if sp.win.isNone then some "session although no commissioning window is open (closed or expired)"
-          else none
-        else if implS < sp.sessions then some "a session disappeared"
+          else match sp.win with
+            | none => some "session although no commissioning window is open (closed or expired)"
+            | some (wpw, _, _) =>
+              if ini.pw ≠ wpw then some "session although the passcode is not the one of the open window's verifier" else none
+        else if implS < sp.sessions && !evicted.contains "P" then some "a session disappeared"
         else none
       -- (2) advertised ⇔ window present
       let c2 : Option String :=
@@ -221,11 +292,11 @@ def step (st : St) (line : String) : St × String :=
       -- (3) the window is revoked once the counter reaches the threshold
       let c3 : Option String :=
         if (implF.getD 0) ≥ 20 then some s!"window still open with {implF.getD 0} counted failures (the property says twenty)" else none
-      -- (4) a failed proof is counted: after a Pake3 answered `InvalidParameter` the counter moved or the window is gone
+      -- (4) a failed proof is counted (once): after a Pake3 answered `InvalidParameter` the counter moved by one or the window is gone
       let c4 : Option String :=
         if head = "pake3" && reply = "status:2" && implW then
           match sp.win, implF with
-          | some (_, _, f), some f' => if f' = f + 1 then none else some s!"failed proof not counted ({f} -> {f'})"
+          | some (_, _, f), some f' => if f' = f + 1 then none else some s!"failed proof not counted exactly once ({f} -> {f'})"
           | _, _ => none
         else none
       -- (5) no window by the spec's book-keeping (revoked / never opened / expired and polled) => none reported
@@ -245,8 +316,18 @@ def step (st : St) (line : String) : St × String :=
       match ora with
       | some why => (st, s!"ORA {why}")
       | none =>
-        let mo := s!"{replyOf o} | {obsOf m'}"
-        let io := s!"{reply} | {obs}"
+        let ro := match o with
+          | .pbkdfResp _ =>
+            let rx := match findTask m1 k with
+              | some tk => toString (rxTimeoutMs tk.mrp localActiveMs)
+              | none => "-"
+            match m1.window with
+            | some w => s!"pbkdfresp it={w.iterations} sl={w.saltLen} rxto={rx}"
+            | none => "pbkdfresp"
+          | _ => replyOf o
+        let mo := s!"{ro} | {obsOf m'}"
+        -- the classes of the evicted sessions are an input (they choose the model's victim), not compared
+        let io := s!"{reply} | {" ".intercalate ((words obs).filter (fun w => !(w.startsWith "ev=") && !(w.startsWith "hit=")))}"
         -- `tick` / `poll` / `abort` print `-` as reply
         let mo := if head = "tick" || head = "poll" || head = "abort" then s!"- | {obsOf m'}" else mo
         let mo := if head = "revoke" then s!"ok | {obsOf m'}" else mo
